@@ -20,6 +20,7 @@ import tempfile
 from . import common, tlc
 
 NAN = 9999
+POS_INF, NEG_INF = 1000, -1000      # reported +-inf (= NoHi / NoLo of Pruners.tla: an open bound is an infinite bound)
 NOLO, NOHI = -1000, 1000
 MC_QUICK = ["PrunersMC_q_pct", "PrunersMC_q_thr", "PrunersMC_q_pat", "PrunersMC_q_sha", "PrunersMC_q_hb"]
 MC_THOROUGH = ["PrunersMC_t_pct", "PrunersMC_t_thr", "PrunersMC_t_pat", "PrunersMC_t_sha", "PrunersMC_t_hb"]
@@ -116,7 +117,8 @@ class Player:
         return t.number
 
     def rep(self, t, s, v):
-        self.trials[t].report(math.nan if v == NAN else float(v), s)
+        x = math.nan if v == NAN else math.inf if v == POS_INF else -math.inf if v == NEG_INF else float(v)
+        self.trials[t].report(x, s)
         self.ev.append({"a": "Report", "t": t, "s": s, "v": v})
 
     def sp(self, t):
@@ -151,7 +153,7 @@ class Player:
 
         iv = {}
         for s_, v in script:
-            iv.setdefault(s_, math.nan if v == NAN else float(v))
+            iv.setdefault(s_, math.nan if v == NAN else math.inf if v == POS_INF else -math.inf if v == NEG_INF else float(v))
         state = TrialState.COMPLETE if st == "COMPLETE" else TrialState.PRUNED
         self.study.add_trial(optuna.trial.create_trial(
             state=state, value=0.0 if st == "COMPLETE" else None, intermediate_values=iv))
@@ -306,7 +308,10 @@ def play_random(rng, storages, skind, kind=None):
     scripts = []
     for i in range(n_trials):
         role = "random" if uniform else focus_role if i == n_trials - 1 else "other"
-        scripts.append([(s, _value(rng, role, d, p_nan if role != "best" else p_nan / 4)) for s in _steps(rng, c, long_)])
+        script = [(s, _value(rng, role, d, p_nan if role != "best" else p_nan / 4)) for s in _steps(rng, c, long_)]
+        if c["kind"] == "threshold":       # a diverged metric: +-inf lies inside an open bound and outside a closed one
+            script = [(s, rng.choice([POS_INF, NEG_INF]) if rng.random() < 0.15 else v) for s, v in script]
+        scripts.append(script)
     p_sp = rng.choice([1.0, 0.85, 0.5])
     react = rng.random() < 0.7               # a pruned answer ends the trial (what a real objective does)
 
